@@ -7,7 +7,7 @@
    what the twin correspondence checks. *)
 From Coq Require Import List Arith Bool.
 Import ListNotations.
-From PySM Require Import Impl.Engine Proofs.EngineFrame Proofs.EngineProofs.
+From PySM Require Import Impl.Engine Proofs.EngineFrame Proofs.EngineProofs Proofs.EngineLog Proofs.AsyncStart.
 
 (* guards that are pure and independent of how often they are asked: the sync executor (which stops
    at the first failing entry) and the async executor (which starts every guard coroutine and
@@ -36,6 +36,18 @@ Theorem C05_activation_deferred_not_lost :
       Ok (match field c with None => enqueue {| td_ev := None; td_tag := 0 |} c | Some _ => c end) no_res.
 Proof. exact construct_async. Qed.
 Print Assumptions C05_activation_deferred_not_lost.
+
+(* ... so the first event sent afterwards (through the documented engine, C03_engine_refines_flat)
+   processes the activation first and the event itself second, each to completion, before anything
+   their callbacks send *)
+Theorem C05_first_event_runs_after_activation :
+  forall beh rm fuel td c c' v,
+    queue c = [] -> locked c = false ->
+    send_flat beh rm fuel td (enqueue init_td c) = Ok c' v ->
+    exists later,
+      Drained beh rm (set_locked (enqueue td (enqueue init_td c)) true) (init_td :: td :: later) c'.
+Proof. exact first_event_after_deferred_activation. Qed.
+Print Assumptions C05_first_event_runs_after_activation.
 
 (* ... and whatever is processed, the loop ends idle on both engines *)
 Theorem C05_loop_ends_idle :
